@@ -476,6 +476,27 @@ def precedence_probe(ctx):
             finally:
                 os.chdir(cwd)
 
+        # gate definitions injected as a LIST (the documented alternative to a dictionary) override imports just the same
+        table["A then B + injected as a list (injected wins)"] = (accepted_arity(["vfpa", "vfpb"], list(inj.values())), [3])
+        # a module of the same name that the host program imported itself (absolute import, from elsewhere on sys.path)
+        # is none of a relative pulse import's business: the file under import_path is the one that counts
+        d3 = os.path.join(d, "hostpath")
+        os.makedirs(d3, exist_ok=True)
+        with open(os.path.join(d3, "vfpc.py"), "w") as fd:
+            fd.write(PULSE_MOD % 1)
+        with open(os.path.join(d, "vfpc.py"), "w") as fd:
+            fd.write(PULSE_MOD % 2)
+        import importlib
+        import sys as _sys
+
+        _sys.path.insert(0, d3)
+        try:
+            _sys.modules.pop("vfpc", None)
+            importlib.import_module("vfpc")
+            table["C relative, after the host imported another module called vfpc"] = (accepted_arity(["vfpc"], None), [2])
+        finally:
+            _sys.path.remove(d3)
+            _sys.modules.pop("vfpc", None)
         table["A by default path, in the first directory"] = (arity_in_cwd(d), [2])
         table["A by default path, after chdir to a directory with another vfpa"] = (arity_in_cwd(d2), [3])
         rec.count("precedence-probes")
